@@ -9,7 +9,7 @@ ids=("$@"); [ ${#ids[@]} -eq 0 ] && ids=($(ls -d seeded/*/ | xargs -n1 basename)
 OUT=/var/tmp/verif-seeded-matrix; rm -rf "$OUT"; mkdir -p "$OUT"
 if [ -n "$(git -C /repo status --porcelain)" ]; then echo "/repo is not clean"; exit 9; fi
 for id in "${ids[@]}"; do
-  props=$(python3 -c "import json;m=json.load(open('seeded/$id/meta.json'));print(' '.join(sorted(set([m['breaks_property']])|set(m['caught_by']))))")
+  props=$(python3 -c "import json;m=json.load(open('seeded/$id/meta.json'));print(' '.join(sorted(set(m['breaks_property'].replace(' ','').split('/'))|set(m['caught_by']))))")
   git -C /repo apply "$HERE/seeded/$id/patch.diff" || { echo "$id PATCH-FAILED"; continue; }
   for prop in $props; do
     VERIF_EVIDENCE_DIR="$OUT/evidence" VERIF_REPLAY_DIR="$OUT/replays" VERIF_SHRINK_S=20 ./check "$prop" --tier quick > "$OUT/$id-$prop.log" 2>&1
